@@ -273,6 +273,7 @@ func c05Heal(r *rng, id string) {
 }
 
 func TestC05(t *testing.T) {
+	forCases(6, 55, "x", func(i int, r *rng, id string) { lockStir("C05", r, id) })
 	n := envInt("VERIF_N", 80)
 	if thorough() {
 		n = envInt("VERIF_N", 3000)
